@@ -45,7 +45,8 @@ def run(chk, tier):
     g = Gen(crate, "JitterRng")
     iD = field_index(g.adt, "data")
     ws = writers_of_field(crate, g.path, iD)
-    chk.ob("R0", "JitterRng.data|writers", ws == WRITERS, "writers: %s" % sorted(x.split("::")[-1] for x in ws),
+    # no writer outside the analysed set (a listed function that no longer writes the pool is not a problem)
+    chk.ob("R0", "JitterRng.data|writers", ws <= WRITERS and len(ws) >= 3, "writers: %s" % sorted(x.split("::")[-1] for x in ws),
            sample={"field": "data", "writers": sorted(ws)})
     # ---- R1: the LFSR fold
     lk = next((k for k, b in crate.bodies.items() if b["def"].endswith("lfsr_time::lfsr")), None)
